@@ -278,8 +278,15 @@ pub fn cmd_writer(out: &str, seed: u64, thorough: bool) {
 // ------------------------------------------------------------------------------------------
 // iterators
 
+/// step sequences for SeqLines: f = next, b = next_back, z = nth(0), 1 = nth(1), 3 = nth(3), r = nth_back(1), y = nth_back(0)
 fn step_seqs(max: usize) -> Vec<Vec<u8>> {
-    strings(&[b'f', b'b'], max)
+    let mut v = strings(&[b'f', b'b'], max);
+    for s in strings(&[b'f', b'b', b'z', b'1', b'3', b'r', b'y'], max.min(4)) {
+        if s.iter().any(|c| *c != b'f' && *c != b'b') {
+            v.push(s);
+        }
+    }
+    v
 }
 
 pub fn cmd_iters(out: &str, seed: u64, thorough: bool) {
@@ -319,11 +326,21 @@ pub fn cmd_iters(out: &str, seed: u64, thorough: bool) {
                         let pre = format!("{{\"len\":{},\"lo\":{},\"hi\":{}}}", it.len(), lo, hi.map(|h| h as i64).unwrap_or(-1));
                         let mut evs = vec![];
                         for s in &steps {
-                            let item = if *s == b'f' { it.next() } else { it.next_back() };
+                            let (dir, k, item) = match *s {
+                                b'f' => ('f', 0, it.next()),
+                                b'b' => ('b', 0, it.next_back()),
+                                b'z' => ('f', 0, it.nth(0)),
+                                b'1' => ('f', 1, it.nth(1)),
+                                b'3' => ('f', 3, it.nth(3)),
+                                b'r' => ('b', 1, it.nth_back(1)),
+                                _ => ('b', 0, it.nth_back(0)),
+                            };
                             let (lo, hi) = it.size_hint();
                             evs.push(format!(
-                                "{{\"s\":\"{}\",\"some\":{},\"item\":{},\"len\":{},\"lo\":{},\"hi\":{}}}",
-                                *s as char,
+                                "{{\"s\":\"{}\",\"k\":{},\"via\":\"{}\",\"some\":{},\"item\":{},\"len\":{},\"lo\":{},\"hi\":{}}}",
+                                dir,
+                                k,
+                                if *s == b'f' || *s == b'b' { "next" } else { "nth" },
                                 item.is_some(),
                                 jb(item.unwrap_or(b"")),
                                 it.len(),
@@ -363,12 +380,24 @@ pub fn cmd_iters(out: &str, seed: u64, thorough: bool) {
                         let rev: Vec<String> = mk().rev().map(jb).collect();
                         let zip: Vec<String> = mk().zip(10..).map(|(l, i)| format!("{{\"i\":{},\"l\":{}}}", i, jb(l))).collect();
                         let skip1: Vec<String> = mk().skip(1).map(jb).collect();
+                        let skips: Vec<String> = (0..=(nl + 1)).map(|k| format!("[{}]", mk().skip(k).map(jb).collect::<Vec<_>>().join(","))).collect();
+                        let step2: Vec<String> = mk().step_by(2).map(jb).collect();
+                        // a skip beyond the end reports the end; the iterator it leaves behind has nothing more to give
+                        let mut it = mk();
+                        let skip_far_none = it.by_ref().skip(nl + 1).next().is_none();
+                        let left_len = it.len();
+                        let left_next_none = it.next().is_none();
                         let collect: Vec<String> = mk().collect::<Vec<_>>().into_iter().map(jb).collect();
                         let count = mk().count();
                         let last = mk().last().map(|l| format!("[{}]", jb(l))).unwrap_or_else(|| "[]".into());
                         let rposition = mk().rposition(|l| l.is_empty() || !l.is_empty()).map(|p| p as i64).unwrap_or(-1);
                         format!(
-                            "\"enum_rev\":[{}],\"rev\":[{}],\"zip\":[{}],\"skip1\":[{}],\"collect\":[{}],\"count\":{},\"last\":{},\"rposition\":{}",
+                            "\"skips\":[{}],\"step2\":[{}],\"skip_far\":{{\"none\":{},\"left_len\":{},\"left_next_none\":{}}},\"enum_rev\":[{}],\"rev\":[{}],\"zip\":[{}],\"skip1\":[{}],\"collect\":[{}],\"count\":{},\"last\":{},\"rposition\":{}",
+                            skips.join(","),
+                            step2.join(","),
+                            skip_far_none,
+                            left_len,
+                            left_next_none,
                             enum_rev.join(","),
                             rev.join(","),
                             zip.join(","),
@@ -381,7 +410,7 @@ pub fn cmd_iters(out: &str, seed: u64, thorough: bool) {
                     }));
                     match r {
                         Ok(s) => writeln!(f, "{{\"ev\":\"adapt\",\"input\":{},\"kf\":{},\"kb\":{},\"panic\":false,{}}}", jb(&x), kf, kb, s).unwrap(),
-                        Err(_) => writeln!(f, "{{\"ev\":\"adapt\",\"input\":{},\"kf\":{},\"kb\":{},\"panic\":true,\"enum_rev\":[],\"rev\":[],\"zip\":[],\"skip1\":[],\"collect\":[],\"count\":0,\"last\":[],\"rposition\":-1}}", jb(&x), kf, kb).unwrap(),
+                        Err(_) => writeln!(f, "{{\"ev\":\"adapt\",\"input\":{},\"kf\":{},\"kb\":{},\"panic\":true,\"skips\":[],\"step2\":[],\"skip_far\":{{\"none\":true,\"left_len\":0,\"left_next_none\":true}},\"enum_rev\":[],\"rev\":[],\"zip\":[],\"skip1\":[],\"collect\":[],\"count\":0,\"last\":[],\"rposition\":-1}}", jb(&x), kf, kb).unwrap(),
                     }
                     n += 1;
                 }
